@@ -31,13 +31,14 @@ def run_seed(seed, props, jobs):
 def main():
     ap = argparse.ArgumentParser()
     ap.add_argument("--seeds"); ap.add_argument("--props"); ap.add_argument("--par", type=int, default=4); ap.add_argument("--jobs", type=int, default=4)
+    ap.add_argument("--own", action="store_true", help="run each change only against the check of the property it was written for")
     a = ap.parse_args()
     seeds = a.seeds.split(",") if a.seeds else sorted(x for x in os.listdir(os.path.join(HERE, "seeded")) if os.path.isdir(os.path.join(HERE, "seeded", x)) and not x.startswith("_"))
     props = a.props.split(",") if a.props else sorted(PROPS)
     path = os.path.join(HERE, "seeded", "matrix.json")
     matrix = json.load(open(path)) if os.path.exists(path) else {}
     with cf.ThreadPoolExecutor(a.par) as ex:
-        for seed, out in ex.map(lambda s: run_seed(s, props, a.jobs), seeds):
+        for seed, out in ex.map(lambda s: run_seed(s, [s.split("-")[0]] if a.own else props, a.jobs), seeds):
             matrix.setdefault(seed, {}).update(out)
             own = seed.split("-")[0]
             fired = [p for p, v in out.items() if isinstance(v, dict) and v.get("exit") == 1]
